@@ -195,8 +195,7 @@ theorem no_sub_cut (hs : Stratified (specSys sys u cw) rk)
       · exact not_mem_noteIf (by decide) h
       · unfold exclNotes at h
         simp only [List.mem_append] at h
-        rcases h with (h | h) | h
-        · exact not_mem_noteIf (by decide) h
+        rcases h with h | h
         · exact not_mem_noteIf (by decide) h
         · exact not_mem_noteIf (by decide) h
       · exact not_mem_noteIf (by decide) h
